@@ -412,12 +412,15 @@ def run(ctx):
         raise C.BuildError("harness run failed: " + out[-2000:])
     hyp = {}
     hypfail = []
+    foreign_tmp = 0
     for l in out.splitlines():
         f = l.split("\t")
         if f[0] == "hyp" and len(f) == 3:
             hyp[f[1]] = int(f[2])
         elif f[0] == "hypfail":
             hypfail.append(f[1:])
+        elif f[0] == "tmpdir-on-another-file-system" and len(f) == 2:
+            foreign_tmp = int(f[1])
 
     pr = C.coq_props(PROPS)
     C.coq_obligation_violations(ctx, pr, "C12")
@@ -520,6 +523,7 @@ def run(ctx):
         h = hists[0]
         samples.append({"id": h.id, "tag": h.tag, "ops": pretty_ops(sym[h.id])[:8]})
     stats.update({"validated:" + k: v for k, v in hyp.items()})
+    stats["temp_directory_on_another_file_system_than_the_session_files"] = bool(foreign_tmp)
     if coqchk:
         ctx.notes.append(coqchk)
     mcov = c12m.stage(ctx)   # end-to-end half against the in-process server
